@@ -422,7 +422,7 @@ func (fr *Frame) applyContract(c *Contract, names []string, ptypes []types.Type,
 			lo, hi := tupleRange(resT, i)
 			b := bound{Value{C: res.C[lo:hi]}, resT.At(i).Type()}
 			env[fmt.Sprintf("result%d", i)] = b
-			if i == 0 {
+			if i == 0 && len(c.Results) == 0 {
 				env["result"] = b
 			}
 			if i < len(c.Results) {
